@@ -46,6 +46,18 @@ type GenJob struct {
 	Registry    bool              `json:"registry"`    // write registry_verif.go next to the output
 	PreFiles    map[string]string `json:"preFiles"`    // files written into OutDir before the run
 	PreDelete   []string          `json:"preDelete"`   // files removed from OutDir before the run (chains)
+	// Batch: non-empty = one call of Generator.GenerateDir over a directory with one sub-directory per item (each
+	// with its own spec and .goag.yaml) instead of GenerateFile; the result lists "<item>/<file>"
+	Batch []BatchItem `json:"batch,omitempty"`
+	// FreshProcess (first job of a chain): the chain runs in a worker process that has not run anything before
+	FreshProcess bool `json:"freshProcess,omitempty"`
+}
+
+// BatchItem is one sub-directory of a `goag --dir` run.
+type BatchItem struct {
+	Name   string `json:"name"`
+	Spec   string `json:"spec"`   // "" = the sub-directory holds no spec file
+	Config string `json:"config"` // .goag.yaml content, "" = none
 }
 
 type FileInfo struct {
@@ -135,6 +147,21 @@ func RunGen(job GenJob) (res GenResult) {
 	if pkg == "" {
 		pkg = "gen"
 	}
+	batchRoot := filepath.Join(tmp, "batch")
+	if len(job.Batch) > 0 {
+		os.MkdirAll(batchRoot, 0o755)
+		os.WriteFile(filepath.Join(batchRoot, "README.txt"), []byte("not a directory\n"), 0o644) // entries that are not directories are skipped
+		for _, it := range job.Batch {
+			d := filepath.Join(batchRoot, it.Name)
+			os.MkdirAll(d, 0o755)
+			if it.Spec != "" {
+				os.WriteFile(filepath.Join(d, specName), []byte(it.Spec), 0o644)
+			}
+			if it.Config != "" {
+				os.WriteFile(filepath.Join(d, ".goag.yaml"), []byte(it.Config), 0o644)
+			}
+		}
+	}
 
 	var logBuf bytes.Buffer
 	oldW, oldF := log.Writer(), log.Flags()
@@ -160,7 +187,12 @@ func RunGen(job GenJob) (res GenResult) {
 			}
 		}()
 		g := goag.Generator{GenClient: job.Client, GenAPIHandler: job.APIHandler, DoNotEdit: job.DoNotEdit}
-		gerr := g.GenerateFile(outDir, pkg, specFile, job.BasePath, cfgFile, job.SpecHandler)
+		var gerr error
+		if len(job.Batch) > 0 {
+			gerr = g.GenerateDir(batchRoot, "out", pkg, specName, job.BasePath, ".goag.yaml", job.SpecHandler)
+		} else {
+			gerr = g.GenerateFile(outDir, pkg, specFile, job.BasePath, cfgFile, job.SpecHandler)
+		}
 		if gerr != nil {
 			res.Err = gerr.Error()
 			if res.Err == "" {
@@ -180,6 +212,17 @@ func RunGen(job GenJob) (res GenResult) {
 	sort.Strings(res.Templates)
 
 	res.Files = map[string]FileInfo{}
+	for _, it := range job.Batch {
+		ents, _ := os.ReadDir(filepath.Join(batchRoot, it.Name, "out"))
+		for _, e := range ents {
+			bs, err := os.ReadFile(filepath.Join(batchRoot, it.Name, "out", e.Name()))
+			if err != nil {
+				continue
+			}
+			h := sha256.Sum256(bs)
+			res.Files[it.Name+"/"+e.Name()] = FileInfo{Sha: hex.EncodeToString(h[:8]), Size: len(bs)}
+		}
+	}
 	ents, _ := os.ReadDir(outDir)
 	for _, e := range ents {
 		if e.IsDir() {
